@@ -222,12 +222,89 @@ class ExpectLoopExact(ExpectLoop):
         return out
 
 
+# ---- the same for the regex searcher: only the listed-index clause (its agreement with naive search is the window) --
+SRq = 'pexpect.expect.searcher_re'
+
+
+def re_shape(b, loop=False):
+    sp, kind = spawn_shape(b, loop=loop)
+    se = b.obj('searcher', SRq, sealed=True, eof_index=b.int('eof_index'), timeout_index=b.int('timeout_index'),
+               _searches=b.symlist('_searches', [('idx', T.Int), ('s', TRegex(kind))]), _kind=b.const(kind),
+               start=b.any('start0'), end=b.any('end0'), match=b.any('smatch0'))
+    W = b.opt('W', lambda: b.int('W'))
+    me = b.obj('self', E, sealed=True, spawn=sp, searcher=se, searchwindowsize=W, lookback=b.none())
+    b.ghost('bk', 0)
+    b.ghost('ss.bk', 0)
+    return me, sp, se, kind
+
+
+class DoSearchRe(DoSearch):
+    props = ('C02',)
+    only_in = 're'
+    context = 're'
+    standin = False
+
+    def shape(self, b):
+        me, sp, se, kind = re_shape(b)
+        return dict(self=me, window=b.str('window', kind), freshlen=b.int('freshlen'))
+
+    def requires(self, v):
+        return DoSearch.requires(self, v) + ascending(v.a.self.searcher._searches)
+
+
+class ExistingDataRe(ExistingData):
+    props = ('C02',)
+    only_in = 're'
+    context = 're'
+    standin = False
+
+    def shape(self, b):
+        me, sp, se, kind = re_shape(b)
+        return dict(self=me)
+
+    def requires(self, v):
+        return ExistingData.requires(self, v) + ascending(v.a.self.searcher._searches)
+
+
+class NewDataRe(NewData):
+    props = ('C02',)
+    only_in = 're'
+    context = 're'
+    standin = False
+
+    def shape(self, b):
+        me, sp, se, kind = re_shape(b)
+        return dict(self=me, data=b.str('data', kind))
+
+    def requires(self, v):
+        return NewData.requires(self, v) + ascending(v.a.self.searcher._searches)
+
+
+class ExpectLoopRe(ExpectLoop):
+    props = ('C02',)
+    only_in = 're'
+    context = 're'
+    standin = False
+
+    def shape(self, b):
+        me, sp, se, kind = re_shape(b, loop=True)
+        b.ghost('R', b'' if (kind == 'b' and hasattr(b, 'source')) else '')
+        b.ghost('clk', b.real('clk0'))
+        b.ghost('nreads', 0)
+        return dict(self=me, timeout=b.opt('timeout', lambda: b.real('timeout')))
+
+    def requires(self, v):
+        return ExpectLoop.requires(self, v) + ascending(v.a.self.searcher._searches)
+
+
 class ExpecterInit(Contract):
     """Expecter.__init__: the look-back is the searcher's longest string (None for a searcher that has none); -1 means
     the spawn's own search window."""
     name = E + '.__init__'
     props = ('C03',)
     standin = False
+    only_in = 'init'        # verified on its own; callers keep inlining the (loop-free) constructor body
+    context = 'init'
 
     def shape(self, b):
         sp = b.obj('spawn', SPAWNBASE, sealed=False, searchwindowsize=b.opt('spawn.W', lambda: b.int('spawn.W')))
@@ -266,5 +343,5 @@ class ExpecterInit(Contract):
 
 
 def register(reg):
-    for c in (DoSearchExact, ExistingDataExact, NewDataExact, ExpectLoopExact, ExpecterInit):
+    for c in (DoSearchExact, ExistingDataExact, NewDataExact, ExpectLoopExact, ExpecterInit, DoSearchRe, ExistingDataRe, NewDataRe, ExpectLoopRe):
         reg.add(c)
